@@ -9,6 +9,7 @@ import (
 	"strconv"
 	"strings"
 	"sync"
+	"sync/atomic"
 	"time"
 
 	kubeapps "k8s.io/api/apps/v1"
@@ -1207,7 +1208,7 @@ func genSync(rng *rand.Rand, n int, emit func(string)) {
 		c := genSyCase(rng)
 		if rng.Intn(3) == 0 {
 			// dry run to learn which calls occur, then place one or two faults on calls that actually happen
-			_, log := runSyncCase(c)
+			log := dryRunSync(c)
 			if len(log) > 0 {
 				nf := 1 + rng.Intn(2)
 				for k := 0; k < nf; k++ {
@@ -1243,5 +1244,31 @@ func genSync(rng *rand.Rand, n int, emit func(string)) {
 			}
 		}
 		emit(c.line())
+	}
+}
+
+// dryRunSync: the generators learn from a plain run which calls a case makes (to place faults on calls that happen). Code under
+// test that spins for ever must not hang the generator: the dry run gets a wall-clock limit, and after one miss no further dry
+// run is attempted (the cases are then emitted without faults; the measured runs have their own watchdog).
+func dryRunSync(c *syCase) []string {
+	if atomic.LoadInt32(&timeouts) > 0 {
+		return nil
+	}
+	done := make(chan []string, 1)
+	go func() {
+		defer func() {
+			if r := recover(); r != nil {
+				done <- nil
+			}
+		}()
+		_, log := runSyncCase(c)
+		done <- log
+	}()
+	select {
+	case log := <-done:
+		return log
+	case <-time.After(caseTimeLimit):
+		atomic.AddInt32(&timeouts, 1)
+		return nil
 	}
 }
